@@ -626,6 +626,20 @@ impl Sim {
                             self.cnt("ae_with_embedding");
                         }
                     }
+                    if let Message::AppendEntriesResponse(r) = &f.msg {
+                        // evidence only: how often a leader is handed an answer from an earlier term
+                        let (stale, beyond) = {
+                            let l = &self.nodes[f.to].as_ref().unwrap().raft;
+                            let stale = r.success && l.state() == RaftState::Leader && r.term < l.current_term();
+                            (stale, stale && r.match_index > l.last_log_index())
+                        };
+                        if stale {
+                            self.cnt("earlier_term_ack_delivered_to_leader");
+                        }
+                        if beyond {
+                            self.cnt("earlier_term_ack_beyond_leader_log");
+                        }
+                    }
                     let from_id = self.ids[f.from].clone();
                     let reply = self.nodes[f.to].as_ref().unwrap().raft.handle_message(&from_id, &f.msg);
                     self.cnt(&format!("delivered_{}", f.key.k));
@@ -867,6 +881,9 @@ struct Profile {
     /// percentage of sent messages that become stragglers, and the weight of delivering one
     slow_pct: u32,
     w_slow: u32,
+    /// adversarial delay: successful AppendEntries answers become stragglers more often and are then
+    /// only released while their addressee leads a later term (any delay is legal for the network)
+    hold_acks: bool,
 }
 
 fn profile(rng: &mut Rng, cfg: &Cfg) -> Profile {
@@ -889,6 +906,7 @@ fn profile(rng: &mut Rng, cfg: &Cfg) -> Profile {
         fifo_bias: rng.bool(),
         slow_pct: *rng.pick(&[0, 4, 10]),
         w_slow: *rng.pick(&[1, 2]),
+        hold_acks: rng.chance(1, 3),
     }
 }
 
@@ -899,7 +917,22 @@ fn gen_event(rng: &mut Rng, p: &Profile, s: &Sim) -> Option<Ev> {
     let leaders: Vec<usize> = live.iter().copied().filter(|&i| s.is_leader(i)).collect();
     let non_leaders: Vec<usize> = live.iter().copied().filter(|&i| !s.is_leader(i)).collect();
     let deliverable: Vec<usize> = (0..s.inflight.len()).filter(|&k| s.nodes[s.inflight[k].to].is_some() && !s.inflight[k].slow).collect();
-    let stragglers: Vec<usize> = (0..s.inflight.len()).filter(|&k| s.nodes[s.inflight[k].to].is_some() && s.inflight[k].slow).collect();
+    let stragglers: Vec<usize> = (0..s.inflight.len())
+        .filter(|&k| {
+            let f = &s.inflight[k];
+            let live = match &s.nodes[f.to] {
+                Some(l) => l,
+                None => return false,
+            };
+            if !f.slow {
+                return false;
+            }
+            if p.hold_acks && f.key.k == "AER" && f.key.a == 1 {
+                return live.raft.state() == RaftState::Leader && live.raft.current_term() > f.key.t;
+            }
+            true
+        })
+        .collect();
     let crashable: Vec<usize> = live.iter().copied().filter(|&i| s.crashes[i] < MAX_CRASHES_PER_NODE).collect();
     // never take a majority down at once for long: keep the schedule productive (not a soundness matter)
     let can_crash = !crashable.is_empty() && down.len() < n / 2 + 1;
@@ -921,7 +954,7 @@ fn gen_event(rng: &mut Rng, p: &Profile, s: &Sim) -> Option<Ev> {
         p.w_partition,
         if can_crash { p.w_crash } else { 0 },
         if down.is_empty() { 0 } else { p.w_restart },
-        if stragglers.is_empty() { 0 } else { p.w_slow },
+        if stragglers.is_empty() { 0 } else if p.hold_acks { p.w_slow * 4 } else { p.w_slow },
     ];
     if w.iter().all(|&x| x == 0) {
         return None;
@@ -942,6 +975,8 @@ fn gen_event(rng: &mut Rng, p: &Profile, s: &Sim) -> Option<Ev> {
         9 => {
             if !cut.is_empty() && (rng.chance(2, 3) || cut.len() >= n / 2) {
                 Ev::Heal { n: *rng.pick(&cut) }
+            } else if !leaders.is_empty() && rng.bool() {
+                Ev::Isolate { n: *rng.pick(&leaders) } // a cut-off leader keeps accepting nothing but piles up uncommitted entries
             } else {
                 Ev::Isolate { n: rng.below(n) }
             }
@@ -1018,9 +1053,10 @@ fn run_random(args: &Args, cfg: Cfg, case_seed: u64, want_trace: bool) -> Outcom
             }
             None => idle += 1,
         }
-        if p.slow_pct > 0 {
+        if p.slow_pct > 0 || p.hold_acks {
             for f in s.inflight.iter_mut().filter(|f| f.seq >= seq0) {
-                if rng.chance(p.slow_pct, 100) {
+                let pct = if p.hold_acks && f.key.k == "AER" && f.key.a == 1 && f.key.b > 0 { 30 } else { p.slow_pct };
+                if rng.chance(pct, 100) {
                     f.slow = true;
                 }
             }
@@ -1177,6 +1213,7 @@ fn random_case(args: &Args, i: u64, case_seed: u64, r: &mut Report) {
     } else {
         3
     };
+    let nodes = args.extra_u64("nodes", nodes as u64) as usize;
     let cfg = Cfg::from_bits(nodes, i % 8);
     let o = run_random(args, cfg, case_seed, false);
     let emb = gen_embeddings(&mut Rng::new(case_seed), &cfg);
